@@ -26,11 +26,11 @@ func ParseTimestamp(timestampStr string) (*timestamppb.Timestamp, error) {
 	return ts, nil
 }
 
-// MarshalTimestamp marshals a timestamp to a RFC3339 string.
+// MarshalTimestamp marshals a timestamp to a RFC3339 string with nanoseconds.
 // This format is also supported by proto3.
 func MarshalTimestamp(ts *timestamppb.Timestamp) string {
 	if ts == nil {
 		return ""
 	}
-	return ts.AsTime().Format(time.RFC3339)
+	return ts.AsTime().Format(time.RFC3339Nano)
 }
